@@ -14,9 +14,20 @@ functions are moreover GENERALISED to variables, so that the `rfl` is purely str
 `negate`s have their branches the other way round in the model (`if is_zero then p else ..` for the
 Rust `if !is_zero { .. }`): case split.
 
-Core Lean only; axioms: `propext`, `Quot.sound` (via `simp`/`rw`/`funext`) at most.
+Loops.  `mul_bits`, `mul_assign` are `List.foldl`s in the generated code: `mul_bits` is literally the
+model's fold; for `mul_assign` the step function is shown equal to one step of the model's recursive
+`Jac.mulLoop` (induction on the bit list).  The two table searches of `osswu_map` for G2 are
+`List.findSome?` in the generated code and the recursive `osswuG2Find` in the model: `loop_bridge`
+(induction on the table).
+
+Functions over the concrete fields that branch on decidable equalities (`osswu_map` for G1, G2,
+`map_to_curve` on them) need care: see the comment before `G1_osswuMap_eq`.
+
+Core Lean (plus `PP.Proofs.SswuUnfold`, which provides the `derive_unfold` command); axioms:
+`propext`, `Quot.sound` (via `simp`/`rw`/`funext`) at most.
 -/
 import PP.Gen.Arith
+import PP.Proofs.SswuUnfold
 
 set_option linter.unusedSimpArgs false
 
@@ -105,6 +116,42 @@ theorem Fq12_instOne_eq : A.Fq12.instOne = (inferInstance : One Fq12) := congrAr
 theorem Fq12_instFieldOps_eq : A.Fq12.instFieldOps = (inferInstance : FieldOps Fq12) := by
   unfold A.Fq12.instFieldOps; lower12; all_goals rfl
 
+/-! ## `Signum0`, `Ord`, `SqrtField` for `Fq` / `Fq2` (src/bls12_381/fq.rs, src/signum.rs, src/bls12_381/fq2.rs) -/
+
+/-- `self.into_repr().0[0] & 1 == 1` (lowest bit of the canonical representative) is translated as
+    `self.v % 2 = 1`, which is how the model's `Zp.sgn0` states it -/
+theorem Fq_sgn0_eq : A.Fq.sgn0 = (Zp.sgn0 : Fq → Sgn0) := rfl
+theorem Sgn0_xor_eq : A.Sgn0.xor = PP.Sgn0.xor := rfl
+theorem negateIf_eq {F : Type} [Neg F] : (A.negateIf : F → Sgn0 → F) = PP.negateIf := rfl
+theorem Fq2_legendre_eq : A.Fq2.legendre = PP.Fq2.legendre := rfl
+theorem Fq2_sgn0_eq : A.Fq2.sgn0 = PP.Fq2.sgn0 := by unfold A.Fq2.sgn0; rw [Fq_sgn0_eq]; rfl
+
+/-- the two exponent literals of `Fq2::sqrt` are the limbs of the constants the model uses -/
+theorem Fq2_sqrt_exp1 : [0xee7fbfffffffeaaa, 0x7aaffffac54ffff, 0xd9cc34a83dac3d89, 0xd91dd2e13ce144af,
+    0x92c6e9ed90d2eb35, 0x680447a8e5ff9a6] = limbsOf 6 Gen.FQ2_SQRT_EXP1 := by decide +kernel
+theorem Fq2_sqrt_exp2 : [0xdcff7fffffffd555, 0xf55ffff58a9ffff, 0xb39869507b587b12, 0xb23ba5c279c2895f,
+    0x258dd3db21a5d66b, 0xd0088f51cbff34d] = limbsOf 6 Gen.FQ2_SQRT_EXP2 := by decide +kernel
+
+theorem Fq2_sqrt_eq : A.Fq2.sqrt = PP.Fq2.sqrt := by
+  funext a
+  unfold A.Fq2.sqrt PP.Fq2.sqrt powNat
+  rw [Fq2_sqrt_exp1, Fq2_sqrt_exp2, Fq2_instMul_eq, Fq2_instOne_eq, Fq2_instFieldOps_eq]
+  lower2
+  all_goals rfl
+
+/-- `Ord for Fq2` returns an `Ordering`; the model has the derived `<` only (`Fq2.lt`).  The `cmp` of
+    `Fq` (derive-generated, compares the canonical integers) is `compare a.v b.v` in the generated code. -/
+theorem Fq2_cmp_lt (a b : Fq2) : PP.Fq2.lt a b = decide (A.Fq2.cmp a b = Ordering.lt) := by
+  unfold A.Fq2.cmp PP.Fq2.lt
+  rcases Nat.lt_trichotomy a.c1.v b.c1.v with h | h | h
+  · have hc : compare a.c1.v b.c1.v = .lt := Nat.compare_eq_lt.mpr h
+    have h' : ¬ a.c1.v > b.c1.v := Nat.lt_asymm h
+    simp [hc, h, h']
+  · have hc : compare a.c1.v b.c1.v = .eq := Nat.compare_eq_eq.mpr h
+    simp [hc, h, Nat.compare_eq_lt]
+  · have hc : compare a.c1.v b.c1.v = .gt := Nat.compare_eq_gt.mpr h
+    simp [hc, h]
+
 /-! ## `curve_impl!` (src/bls12_381/ec/mod.rs), generic in the coefficient field -/
 
 section
@@ -150,11 +197,210 @@ theorem Jac_neg_eq : (A.Jac.neg : Jac F → Jac F) = PP.Jac.neg := by
   rw [Jac_isZero_eq]
   cases PP.Jac.isZero p <;> rfl
 
+/-! scalar multiplication, subgroup test, `get_point_from_x`, `sub_assign` (the `for` loops are
+    `List.foldl`s over the bit list in the generated code) -/
+
+theorem Aff_mulBits_eq : (A.Aff.mulBits : Aff F → List Bool → Jac F) = PP.Aff.mulBits := by
+  funext p bits
+  unfold A.Aff.mulBits PP.Aff.mulBits
+  simp -zeta only [Jac_zero_eq, Jac_double_eq, Jac_addMixed_eq]
+  rfl
+
+theorem Aff_mul_eq : (A.Aff.mul : Aff F → Nat → Jac F) = PP.Aff.mul := by
+  unfold A.Aff.mul; simp -zeta only [Aff_mulBits_eq]; rfl
+
+/-- one iteration of the loop of `mul_assign` is one step of the model's `Jac.mulLoop` -/
+theorem Jac_mulLoop_foldl (p : Jac F) (bits : List Bool) (st : Jac F × Bool) :
+    List.foldl (fun (st : Jac F × Bool) i =>
+      ((if i then (if st.2 then st.1.double else st.1).add p else (if st.2 then st.1.double else st.1)),
+       (if st.2 then st.2 else i))) st bits = PP.Jac.mulLoop p bits st := by
+  induction bits generalizing st with
+  | nil => rfl
+  | cons i bs ih =>
+    obtain ⟨res, found⟩ := st
+    rw [List.foldl_cons, ih]
+    cases found <;> cases i <;> rfl
+
+theorem Jac_mulAssign_eq : (A.Jac.mulAssign : Jac F → Nat → Jac F) = PP.Jac.mulAssign := by
+  funext p k
+  unfold A.Jac.mulAssign PP.Jac.mulAssign
+  simp -zeta only [Jac_zero_eq, Jac_double_eq, Jac_add_eq]
+  rw [← Jac_mulLoop_foldl]
+  show Prod.fst (List.foldl _ _ _) = Prod.fst (List.foldl _ _ _)
+  congr 2
+  funext st i
+  obtain ⟨res, found⟩ := st
+  cases found <;> cases i <;> rfl
+
+/-- Rust `(y < negy) ^ greatest`, model `(lt y negy) != greatest` -/
+theorem Aff_getPointFromX_eq [SqrtOps F] :
+    (A.Aff.getPointFromX : F → F → Bool → Option (Aff F)) = PP.Aff.getPointFromX := by
+  funext b x g
+  unfold A.Aff.getPointFromX PP.Aff.getPointFromX
+  simp only []
+  cases SqrtOps.sqrt (sq x * x + b) with
+  | none => rfl
+  | some y => simp only []
+
+/-- `$scalarfield::char()` is the leading parameter; at `Gen.r` this is the model's function -/
+theorem Aff_isInCorrectSubgroupAssumingOnCurve_eq :
+    (A.Aff.isInCorrectSubgroupAssumingOnCurve Gen.r : Aff F → Bool) = PP.Aff.inSubgroupAssumingOnCurve := by
+  unfold A.Aff.isInCorrectSubgroupAssumingOnCurve; simp -zeta only [Aff_mul_eq, Jac_isZero_eq]; rfl
+
+theorem Jac_sub_eq : (A.Jac.sub : Jac F → Jac F → Jac F) = PP.Jac.sub := by
+  unfold A.Jac.sub; simp -zeta only [Jac_neg_eq, Jac_add_eq]; rfl
+theorem Jac_subMixed_eq : (A.Jac.subMixed : Jac F → Aff F → Jac F) = PP.Jac.subMixed := by
+  unfold A.Jac.subMixed; simp -zeta only [Aff_neg_eq, Jac_addMixed_eq]; rfl
+
 /-! ## `osswu_help` (src/bls12_381/osswu_map/mod.rs) -/
 
 theorem osswuHelp_eq : (A.osswuHelp : F → F → F → F → OsswuHelp F) = PP.osswuHelp := rfl
 
 end
+
+/-! ## `SubgroupCheck`, optimized SWU maps, cofactor clearing, `map_to_curve`
+    (ec/g1.rs, ec/g2.rs, osswu_map/g1.rs, osswu_map/g2.rs, cofactor.rs, src/map_to_curve.rs) -/
+
+theorem Fq2_instAdd_eq : A.Fq2.instAdd = (inferInstance : Add Fq2) := congrArg Add.mk Fq2_add_eq
+theorem Fq2_instSub_eq : A.Fq2.instSub = (inferInstance : Sub Fq2) := congrArg Sub.mk Fq2_sub_eq
+theorem Fq2_instNeg_eq : A.Fq2.instNeg = (inferInstance : Neg Fq2) := congrArg Neg.mk Fq2_neg_eq
+theorem Fq2_instZero_eq : A.Fq2.instZero = (inferInstance : Zero Fq2) := congrArg Zero.mk Fq2_zero_eq
+
+/-- the same with the model's instance CONSTANTS on the right (no `inferInstance` wrapper): a `rewrite`
+    with these leaves terms that are syntactically those of the model -/
+theorem Fq2_instAdd_eq' : A.Fq2.instAdd = PP.Fq2.instAdd := Fq2_instAdd_eq
+theorem Fq2_instSub_eq' : A.Fq2.instSub = PP.Fq2.instSub := Fq2_instSub_eq
+theorem Fq2_instMul_eq' : A.Fq2.instMul = PP.Fq2.instMul := Fq2_instMul_eq
+theorem Fq2_instNeg_eq' : A.Fq2.instNeg = PP.Fq2.instNeg := Fq2_instNeg_eq
+theorem Fq2_instZero_eq' : A.Fq2.instZero = PP.Fq2.instZero := Fq2_instZero_eq
+theorem Fq2_instOne_eq' : A.Fq2.instOne = PP.Fq2.instOne := Fq2_instOne_eq
+theorem Fq2_instFieldOps_eq' : A.Fq2.instFieldOps = PP.Fq2.instFieldOps := Fq2_instFieldOps_eq
+
+/-- the generated `Fq2` operation bundles (local instances of the generic code applied at `Fq2`) are
+    the model's instances -/
+local macro "lowerInst2" : tactic => `(tactic| (
+  (try rewrite [Fq2_instAdd_eq']); (try rewrite [Fq2_instSub_eq']); (try rewrite [Fq2_instMul_eq'])
+  (try rewrite [Fq2_instNeg_eq']); (try rewrite [Fq2_instZero_eq']); (try rewrite [Fq2_instOne_eq'])
+  (try rewrite [Fq2_instFieldOps_eq'])))
+
+theorem G1Affine_inSubgroup_eq (b : Fq) : A.G1Affine.inSubgroup b Gen.r = PP.Aff.inSubgroup b := by
+  unfold A.G1Affine.inSubgroup; simp -zeta only [Aff_isOnCurve_eq, Aff_isInCorrectSubgroupAssumingOnCurve_eq]; all_goals rfl
+
+theorem G2Affine_inSubgroup_eq (b : Fq2) : A.G2Affine.inSubgroup b Gen.r = PP.Aff.inSubgroup b := by
+  unfold A.G2Affine.inSubgroup; lowerInst2
+  simp -zeta only [Aff_isOnCurve_eq, Aff_isInCorrectSubgroupAssumingOnCurve_eq]; all_goals rfl
+
+theorem G1_clearH_eq : A.G1.clearH = PP.clearHG1 := by
+  unfold A.G1.clearH; simp -zeta only [Jac_add_eq]; all_goals rfl
+
+theorem G2_clearH_eq : A.G2.clearH = PP.clearHG2 := by
+  unfold A.G2.clearH; lowerInst2; all_goals rfl
+
+/-! `osswu_map` for G1 and G2.  These are functions over the CONCRETE fields whose bodies branch on
+    decidable equalities: any definitional unfolding that makes the kernel (or `Meta.whnf`) look at an
+    `if` or a matcher discriminant starts evaluating `Fq` arithmetic on symbolic input and does not
+    terminate in practice (see PP/Proofs/SswuUnfold.lean).  Hence: unfold both sides with
+    `derive_unfold` (an `Eq.refl` at the level of the constants), replace the generated lower-layer
+    operations by the model's with `rewrite` (closed equations between constants, no `rfl` attempt),
+    generalise what could be evaluated, and compare structurally in an auxiliary lemma. -/
+
+open PP.Sswu in
+derive_unfold PP.Gen.A.G1.osswuMap as G1_osswuMap_unfold
+
+theorem G1_osswuMap_eq : A.G1.osswuMap = PP.osswuG1 := by
+  funext u
+  refine (G1_osswuMap_unfold u).trans (Eq.trans ?_ (Sswu.osswuG1_unfold u).symm)
+  rewrite [osswuHelp_eq, Fq_sgn0_eq, Sgn0_xor_eq, negateIf_eq,
+    show Fq.ofMont Gen.G1_XI = g1Xi from rfl, show Fq.ofMont Gen.G1_ELLP_A = g1EllpA from rfl,
+    show Fq.ofMont Gen.G1_ELLP_B = g1EllpB from rfl, show Fq.ofMont Gen.G1_SQRT_M_XI_CUBED = g1SqrtMXiCubed from rfl]
+  generalize osswuHelp u g1Xi g1EllpA g1EllpB = h
+  generalize g1SqrtMXiCubed = κ
+  as_aux_lemma => rfl
+
+open PP.Sswu in
+derive_unfold PP.Gen.A.G2.osswuMap as G2_osswuMap_unfold
+
+/-- The two `for root in &TABLE[..] { ..; if c { ..; return V; } }` loops of `osswu_map` for G2 are
+    `match List.findSome? (fun root => .. if c then some V else none) TABLE with | some ret => some ret | none => rest`
+    in the generated code; the model searches with `osswuG2Find` (which returns the multiplied
+    candidate) and post-processes the hit in the `some` branch of its own `match`.  All matcher arguments
+    are variables here, so that applying the lemma is a first-order, syntactic instantiation. -/
+theorem loop_bridge (f : Fq2 → Option (Jac Fq2)) (c d n : Fq2) (l : List Fq2)
+    (kR : Fq2 → Option (Jac Fq2)) (RL RR : Unit → Option (Jac Fq2))
+    (hf : ∀ m, f m = if sq (m * c) * d = n then kR (m * c) else none)
+    (hk : ∀ y, ∃ v, kR y = some v) (hR : RL () = RR ()) :
+    A.G2.osswuMap.match_1 (fun _ => Option (Jac Fq2)) (l.findSome? f) (fun ret => some ret) RL
+    = osswuG2.match_1 (fun _ => Option (Jac Fq2)) (osswuG2Find c d n l) kR RR := by
+  induction l with
+  | nil => exact hR
+  | cons m ms ih =>
+    rw [List.findSome?_cons, hf m]
+    unfold osswuG2Find
+    by_cases hc : sq (m * c) * d = n
+    · obtain ⟨v, hv⟩ := hk (m * c)
+      simp only [hc, if_true, hv]
+    · simp only [hc, if_false]
+      exact ih
+
+theorem G2_osswuMap_eq : A.G2.osswuMap = PP.osswuG2 := by
+  funext u
+  refine (G2_osswuMap_unfold u).trans (Eq.trans ?_ (Sswu.osswuG2_unfold u).symm)
+  lowerInst2
+  rewrite [osswuHelp_eq, Fq2_sgn0_eq, Sgn0_xor_eq, negateIf_eq, Fq2_mul_eq, Fq2_square_eq,
+    show Fq2.ofMont Gen.G2_XI = g2Xi from rfl, show Fq2.ofMont Gen.G2_ELLP_A = g2EllpA from rfl,
+    show Fq2.ofMont Gen.G2_ELLP_B = g2EllpB from rfl,
+    show Gen.G2_ROOTS_OF_UNITY.map Fq2.ofMont = g2RootsOfUnity from rfl, show Gen.G2_ETAS.map Fq2.ofMont = g2Etas from rfl]
+  generalize osswuHelp u g2Xi g2EllpA g2EllpB = h
+  generalize g2RootsOfUnity = roots
+  generalize g2Etas = etas
+  refine loop_bridge _ _ _ _ _ _ _ _ ?hf1 ?hk1 ?hR
+  case hf1 => intro m; rfl
+  case hk1 => exact fun y => ⟨_, rfl⟩
+  case hR =>
+    refine loop_bridge _ _ _ _ _ _ _ _ ?hf2 ?hk2 rfl
+    case hf2 => intro m; rfl
+    case hk2 => exact fun y => ⟨_, rfl⟩
+
+/-! `map_to_curve`, `map2_to_curve` (src/map_to_curve.rs) are generic over the traits `OSSWUMap +
+    IsogenyMap + ClearH` (and `CurveProjective::add_assign`): the generated definitions take the trait
+    methods as parameters; `osswu_map` is Option-valued (`none` = panic; the G1 map never panics).
+    Instantiated with the methods of G1 / G2 they are the model's functions.  The isogeny
+    (`eval_iso`) is not translated: the model's `iso11` / `iso3` stand for `isogeny_map`. -/
+
+theorem mapToCurve_G1_eq :
+    A.mapToCurve (osswu_map := fun u => some (A.G1.osswuMap u)) (isogeny_map := PP.iso11) (clear_h := A.G1.clearH)
+      = fun u => some (PP.mapToCurveG1 u) := by
+  rw [G1_osswuMap_eq, G1_clearH_eq]; rfl
+
+theorem map2ToCurve_G1_eq :
+    A.map2ToCurve (osswu_map := fun u => some (A.G1.osswuMap u)) (isogeny_map := PP.iso11)
+        (add_assign := A.Jac.add) (clear_h := A.G1.clearH)
+      = fun u0 u1 => some (PP.map2ToCurveG1 u0 u1) := by
+  rw [G1_osswuMap_eq, G1_clearH_eq, Jac_add_eq]; rfl
+
+/-- for abstract trait methods (nothing to evaluate) -/
+theorem mapToCurve_map {α β : Type} (osswu : α → Option β) (iso clear : β → β) (u : α) :
+    A.mapToCurve (osswu_map := osswu) (isogeny_map := iso) (clear_h := clear) u
+      = (osswu u).map (fun p => clear (iso p)) := by
+  unfold A.mapToCurve; cases osswu u <;> rfl
+
+theorem map2ToCurve_bind {α β : Type} (osswu : α → Option β) (iso clear : β → β) (add : β → β → β) (u0 u1 : α) :
+    A.map2ToCurve (osswu_map := osswu) (isogeny_map := iso) (add_assign := add) (clear_h := clear) u0 u1
+      = (osswu u0).bind (fun p0 => (osswu u1).bind (fun p1 => some (clear (add (iso p0) (iso p1))))) := by
+  unfold A.map2ToCurve; cases osswu u0 <;> cases osswu u1 <;> rfl
+
+theorem mapToCurve_G2_eq :
+    A.mapToCurve (osswu_map := A.G2.osswuMap) (isogeny_map := PP.iso3) (clear_h := A.G2.clearH) = PP.mapToCurveG2 := by
+  rw [G2_osswuMap_eq, G2_clearH_eq]
+  funext u
+  exact mapToCurve_map _ _ _ _
+
+theorem map2ToCurve_G2_eq :
+    A.map2ToCurve (osswu_map := A.G2.osswuMap) (isogeny_map := PP.iso3) (add_assign := A.Jac.add)
+        (clear_h := A.G2.clearH) = PP.map2ToCurveG2 := by
+  rw [G2_osswuMap_eq, G2_clearH_eq, Jac_add_eq]
+  funext u0 u1
+  exact map2ToCurve_bind _ _ _ _ _ _
 
 /-! ## pairing (src/bls12_381/mod.rs) -/
 
